@@ -33,4 +33,6 @@ OptionsAccepted(q, b, g, f, rem) ==
     /\ q >= 1 /\ q <= 255 /\ b \in {2, 4, 8, 16, 32, 64, 128} /\ g <= 32 /\ f \in {2, 4, 8, 16}
     /\ rem \in {0, 1, 3, 7, 15, 31, 63, 127, 255}
 EncOptions(q, b, g, ext, f, rem) == <<q, b, g, ext, f, rem>>        \* ext: 1 | 2 | 3
+\* Context::new(trace info with 2^ln rows, options with blowup 2^lb): trace length and LDE domain size at most u32::MAX
+ContextAccepted(ln, lb) == ln >= 3 /\ lb \in 1..7 /\ ln + lb <= 31
 =============================================================================
